@@ -60,3 +60,6 @@ Fixpoint py_any {A} (f : A -> option bool) (l : list A) : option bool :=
 
 (* ---- _check_and_fire_on_done: what entering a final state decides ---- *)
 Inductive on_done_decision := DFire (a : nat) | DComplete | DNothing.
+
+(* ---- _enter_states: what is entered by default below one state of the list being entered ---- *)
+Inductive descent_decision := DescendInto (l : list nat) | DescendNone | DescendError.
